@@ -617,9 +617,18 @@ func genHistory(r *hx.Rng) (capacity int, servers string, ops string) {
 		baseKind = []string{"t12", "t12", "t11", "t10"}[r.Intn(4)]
 	}
 	baseSuites := pickSuites(r, gmWorld)
-	baseCert := []string{"n", "n", "t", "u"}[r.Intn(4)]
+	baseCert := []string{"n", "n", "t", "u", "t"}[r.Intn(5)]
 	nextKey := 3
 	var out []string
+	if baseCert != "n" && r.Intn(4) > 0 { // a client certificate only matters when the servers ask for one
+		pol := []int{1, 2, 3, 4}[r.Intn(4)]
+		if baseCert == "u" {
+			pol = 1 + r.Intn(2)
+		}
+		for si := 0; si < nsrv; si++ {
+			out = append(out, fmt.Sprintf("a/%d/%d", si, pol))
+		}
+	}
 	for c := 0; c < nconn; c++ {
 		// configuration changes between connections
 		for r.Intn(3) == 0 {
@@ -836,6 +845,25 @@ func gen(seed uint64, tier string) []string {
 		{"2", "gm", "c/0/t12/n/n/0/1;c/0/g/n/n/0/1"},
 		{"2", "tls", "c/0/g/n/n/0/1;c/0/t12/n/n/0/1;c/0/t12/n/n/0/1"},
 		{"3", "auto,tls", "c/0/t12/n/n/0/1;c/1/t12/n/n/0/1;r/1/1;c/1/t12/n/n/0/1;c/0/t12/n/n/0/1"},
+	}
+	// a session WITH a client certificate, a rotation that keeps the old key (new key first), a resumption that gets
+	// the re-issued ticket, and further resumptions on the re-issued ticket: the re-issued ticket must carry the
+	// original client identity - for every client-auth policy that admits the certificate, each server kind, trusted
+	// and forged-issuer certificates, a second rotation, and a policy change after the re-issue
+	for _, srv := range []string{"gm", "auto", "tls"} {
+		kind, suite := "g", "e013"
+		if srv == "tls" {
+			kind, suite = "t12", "c02f"
+		}
+		for _, ac := range [][2]string{{"1", "t"}, {"2", "t"}, {"3", "t"}, {"4", "t"}, {"1", "u"}, {"2", "u"}} {
+			c := fmt.Sprintf("c/0/%s/%s/%s/0/1", kind, suite, ac[1])
+			fixed = append(fixed, [3]string{"2", srv, fmt.Sprintf("a/0/%s;%s;r/0/3+1;%s;%s;%s", ac[0], c, c, c, c)})
+		}
+		c := fmt.Sprintf("c/0/%s/%s/t/0/1", kind, suite)
+		fixed = append(fixed,
+			[3]string{"2", srv, fmt.Sprintf("a/0/4;%s;%s;r/0/3+1;%s;r/0/4+3;%s;%s", c, c, c, c, c)},
+			[3]string{"2", srv, fmt.Sprintf("a/0/1;%s;r/0/3+1;%s;a/0/4;%s;%s", c, c, c, c)},
+			[3]string{"2", srv, fmt.Sprintf("a/0/3;%s;r/0/3+1;%s;a/0/0;%s;a/0/3;%s", c, c, c, c)})
 	}
 	for _, h := range fixed {
 		add("H %d %s %s %s", h[0], h[1], h[2])
